@@ -243,6 +243,14 @@ class Engine(object):
     def _gcode(self, rec, cmd):
         code, sub, words = tokenize(cmd)
         rec.update(cmd=cmd, code=code, words=words)
+        if self.active and self.homed and (code == "G28" or (code == "G92" and any(l in "XYZ" for l, v in words if v is not None))):
+            # every property excludes homing / re-basing while an episode is open; that includes an episode only the filter
+            # believes in (e.g. one it opened because of the recorded finding K2): its consequences were judged when it opened
+            try:
+                if self.driver.state.excluding:
+                    raise Truncated("%s-while-filter-excluding" % code.lower())
+            except AttributeError:
+                pass
         t0 = time.time()
         try:
             raw, out, samples = self.driver.gcode(cmd)
